@@ -1,6 +1,7 @@
 package main
 
 import (
+	"sync"
 	"fmt"
 	"go/ast"
 	"go/token"
@@ -68,6 +69,11 @@ type Exec struct {
 	refN         int
 	usedDefs     map[string]bool
 	defDecls     []string
+	assertSyms   []assertInfo
+	idxTerms     []idxTerm
+	boolSymSet   map[string]bool
+	boolSymN     int
+	symMu        sync.Mutex
 	mustWrap     map[string]bool
 	curCallInstr ssa.Instruction
 	modelTerms   []modelTerm
@@ -1213,4 +1219,20 @@ func (x *Exec) checkEnsures(fr *Frame, st *State, results []Val, pos token.Pos) 
 		env.results = results
 		x.obligeClause(st, "ensures", clauseTags(c, fr.propTags), pos, env, c, "ensures")
 	}
+}
+
+// isBoolSym reports whether sym is a declared Boolean constant.
+func (x *Exec) isBoolSym(sym string) bool {
+	x.symMu.Lock()
+	defer x.symMu.Unlock()
+	if x.boolSymSet == nil {
+		x.boolSymSet = map[string]bool{}
+	}
+	for ; x.boolSymN < len(x.decls); x.boolSymN++ {
+		d := x.decls[x.boolSymN]
+		if strings.HasSuffix(d, " Bool)") {
+			x.boolSymSet[strings.TrimSuffix(strings.TrimPrefix(d, "(declare-const "), " Bool)")] = true
+		}
+	}
+	return x.boolSymSet[sym]
 }
